@@ -332,8 +332,8 @@ impl FwProp for C01 {
     }
     fn n_cases(&self, tier: Tier) -> u64 {
         match tier {
-            Tier::Quick => 24_000,
-            Tier::Thorough => 600_000,
+            Tier::Quick => 200_000,
+            Tier::Thorough => 4_000_000,
         }
     }
     fn generate(&self, g: &mut Gen, _tier: Tier, stats: &mut Stats) -> FwCase {
@@ -504,8 +504,8 @@ impl FwProp for C04 {
     }
     fn n_cases(&self, tier: Tier) -> u64 {
         match tier {
-            Tier::Quick => 20_000,
-            Tier::Thorough => 500_000,
+            Tier::Quick => 200_000,
+            Tier::Thorough => 4_000_000,
         }
     }
     fn generate(&self, g: &mut Gen, _tier: Tier, stats: &mut Stats) -> FwCase {
